@@ -58,13 +58,18 @@ pub fn expand_self<T: VisitableMut + Clone>(input: &T, to: &Type) -> T {
 /// (e.g. `dyn A + B` must be written `&(dyn A + B)`, and rustc does not parse the
 /// where predicate `&'a fn(T): Trait` unless it is written `&'a (fn(T)): Trait`).
 pub fn to_ref_elem_type(ty: &Type) -> Type {
-    let need_paren = match ty {
-        Type::TraitObject(t) => t.bounds.len() > 1 || t.bounds.trailing_punct(),
-        Type::ImplTrait(t) => t.bounds.len() > 1 || t.bounds.trailing_punct(),
-        Type::BareFn(t) => matches!(t.output, syn::ReturnType::Default),
-        _ => false,
-    };
-    if need_paren {
+    fn need_paren(ty: &Type) -> bool {
+        match ty {
+            Type::TraitObject(t) => t.bounds.len() > 1 || t.bounds.trailing_punct(),
+            Type::ImplTrait(t) => t.bounds.len() > 1 || t.bounds.trailing_punct(),
+            Type::BareFn(t) => matches!(t.output, syn::ReturnType::Default),
+            // a `$t:ty` fragment of a `macro_rules!` expansion arrives in a None-delimited group,
+            // which does not protect its contents once it is part of the macro's output
+            Type::Group(t) => need_paren(&t.elem),
+            _ => false,
+        }
+    }
+    if need_paren(ty) {
         parse_quote!((#ty))
     } else {
         ty.clone()
